@@ -30,8 +30,8 @@ class Scenario:
         self.kind = rng.choice(kinds or KINDS)
         self.ideal = self.kind.startswith("ideal")
         self.isothermal = "non_isothermal" not in self.kind
-        self.mix, self.mdesc = gen.gen_mixture(rng, 0.0 if builtin_only else p_synth)
-        self.model = rng.choice(list(models))
+        self.mix, self.mdesc = gen.gen_mixture(rng, 0.0 if builtin_only else p_synth, minimal=0.2 if len(models) == 2 else 0.0)
+        self.model = gen.pick_model(rng, self.mix, models)
         if rng.random() < 0.4:
             self.model = gen.fresh_str(self.model)
         self.membrane = gen.gen_membrane(rng, self.mix)
@@ -67,6 +67,9 @@ class Scenario:
         self.n = rng.randint(1, max_steps)
         if self.ideal and not coarse and long_runs and rng.random() < long_runs:
             self.n = rng.randint(1001, 1500)  # a long run (step-count dependent code paths)
+        elif not coarse and long_runs and rng.random() < 0.05:
+            # a medium run that depletes the feed noticeably at every step (between the short runs and the long, fine ones)
+            self.n = rng.randint(31, 400 if self.ideal else 120)
         self.precision = gen.loguniform(rng, 1e-6, 1e-3)
         self.coarse = coarse
         # non-ideal ingredients
@@ -135,6 +138,7 @@ class Scenario:
         area_arg, m0_arg = self.area, self.m0
         if self.narrow == "smallint":
             area_arg, m0_arg = numpy.uint8(int(self.area)), numpy.int16(int(self.m0))
+        self.plot_after = rng.random() < 0.1
         self.conditions = Conditions(
             membrane_area=area_arg, initial_feed_temperature=self.t0, initial_feed_amount=m0_arg,
             initial_feed_composition=self.x0, permeate_temperature=self.tp, permeate_pressure=self.pp,
@@ -167,7 +171,10 @@ class Scenario:
         kw = self.call_kwargs(**over)
         try:
             with guards.budget(SOFT_BUDGET):
-                return "ok", getattr(pv, self.kind)(**kw)
+                model = getattr(pv, self.kind)(**kw)
+            if self.plot_after:
+                plot_everything(model)  # the user looks at the result first; what is judged afterwards is the plotted object
+            return "ok", model
         except guards.BudgetExceeded:
             return "slow", None
         except Exception as e:
@@ -190,6 +197,31 @@ class Scenario:
             d["initial_permeances"] = None if self.initial_permeances is None else [
                 [p.value, p.units] for p in self.initial_permeances]
         return d
+
+
+PLOTS = {"calls": 0, "failed": 0}
+
+
+def plot_everything(obj):
+    """call the object's own plot() on each of its series (Agg backend, nothing is shown): plotting is a read-only operation"""
+    import matplotlib
+
+    matplotlib.use("Agg")
+    import matplotlib.pyplot as plt
+
+    names = ["partial_fluxes", "permeances", "feed_temperature", "feed_compositions", "permeate_composition", "feed_mass",
+             "feed_evaporation_heat", "permeate_condensation_heat"]
+    for k, name in enumerate(names):
+        try:
+            series = getattr(obj, name, None)
+            if not series or series[0] is None:
+                continue
+            PLOTS["calls"] += 1
+            obj.plot(series, name, curve=bool(k % 2))
+        except Exception:
+            PLOTS["failed"] += 1
+        finally:
+            plt.close("all")
 
 
 # ---------------------------------------------------------------------------------------------- oracles on a model
